@@ -244,6 +244,7 @@ class Ctx:
         """Route trace-validation verdict lines: 'P:<pid>:what' contradicts property <pid> (a VIOLATION only for this
         check's own property; other properties' findings are their checks' business and are noted), 'S:what' is
         implementation-shape drift, 'H:what' is a harness-level inconsistency (undecided)."""
+        harness = []
         for v, f in zip(verdicts, files):
             for b in v.get("bad", []):
                 why = b["why"]
@@ -259,7 +260,11 @@ class Ctx:
                 elif why.startswith("S:"):
                     self.drift("%s (e.g. line %d of %s)" % (why[2:], b["l"], os.path.basename(f)))
                 else:
-                    raise Undecided("harness-level inconsistency %s at line %d of %s" % (why, b["l"], f))
+                    harness.append("harness-level inconsistency %s at line %d of %s" % (why, b["l"], f))
+        if harness and not self.violations:
+            raise Undecided(harness[0])
+        if harness:
+            self.notes.append(harness[0])
 
     def finish(self, explanation=""):
         wall = time.time() - self.t0
